@@ -271,7 +271,8 @@ def linear_search(module, cls, only, depth=7, budget_s=40.0, universe=4, recursi
     pol = cls.split('_')[0]
     t0 = time.time()
     call_ops = [{'op': 'call', 'call': {'key_elem': e, 'keygen_raises': False, 'user_raises': False}} for e in range(universe)]
-    extra = [{'op': 'load', 'keys': []}, {'op': 'clear', 'clear_mode': 'default'}, {'op': 'dump', 'keys': []}]
+    extra = [{'op': 'load', 'keys': []}, {'op': 'clear', 'clear_mode': 'default'}, {'op': 'dump', 'keys': []}, {'op': 'info'},
+             {'op': 'clear', 'clear_mode': 'keyword', 'keep': True}]
     maxsizes, purges = ((1,), (False,)) if pol in ('no', 'inf') else ((2, 1), (False, True))
     for (opset, maxlen) in ((call_ops, depth), (call_ops + extra, min(depth, 5))):
         for M in maxsizes:
